@@ -2002,6 +2002,9 @@ class ReferenceManager:
 
         if new_value is None:
             new_value = old_value
+        elif (spec is not None and new_value is not old_value
+                and self.has_spec(new_value)):
+            raise ValueError("new value already has an IOSpec")
 
         if spec is not None:
             self._manager.update_spec_value(spec, new_value, kwargs)
